@@ -69,16 +69,11 @@ func (calc *RewardCalculator) Calculate() (amt *balance.Amount, err error) {
 	// set cached amount if available
 	amt = balance.NewAmount(0)
 	cycleNo, firstInCycle, _ := calc.getCycleNo()
-	if calc.cached.available() {
+	// the cached amount is only valid for the cycle it was calculated for; every cycle start recalculates
+	// (also after burnout), so that a restarted node and a continuously running one always agree
+	if calc.cached.available() && calc.cached.cycleNo == cycleNo && !firstInCycle {
 		*amt = *calc.cached.amount
-		// return if all reward years already passed
-		if calc.cached.burnedout {
-			return
-		}
-		// recalculation is not needed if it's in the same cycle
-		if !firstInCycle {
-			return
-		}
+		return
 	}
 
 	// calculate cached result again only when starting a new cycle or starting to catch up
@@ -98,6 +93,10 @@ func (calc *RewardCalculator) Calculate() (amt *balance.Amount, err error) {
 	if err != nil {
 		// never happen by design
 		logger.Errorf("Year rewards burned out unexpectedly, year= %v", year+1)
+		// nothing is left of this year's supply: the whole cycle pulls zero, restarted or not
+		err = nil
+		amt = balance.NewAmount(0)
+		calc.cacheResult(year, cycleNo, amt, false)
 		return
 	}
 
